@@ -163,6 +163,7 @@ pub fn large_strategy() -> impl Strategy<Value = Case> {
                     info: 0,
                     fmt_dp: false,
                     fmt_gq: false,
+                    ref_pad: 0,
                     has_gt: true,
                     force: force % 100, // no forced classes
                     gts,
